@@ -9,6 +9,7 @@
 // and with every disagreement between the real matrix and the dense reference model.
 #include "c09_common.hpp"
 
+#include <sys/mman.h>
 #include <sys/wait.h>
 #include <unistd.h>
 
@@ -131,6 +132,33 @@ static bool get_str(int fd, std::string& s) {
 }
 
 static bool g_keep_executor_stderr = false;
+
+// Shared between the exploring processes of one configuration (anonymous shared mapping): the number of transitions that
+// left the model so far, and its value at the start of every BFS level.  Once a level starts with more than g_limit
+// such transitions the configuration is not expanded further (the run is already a failure; it is then reported as
+// incomplete, never as exhaustive).  The value at a level start does not depend on the scheduling of the workers.
+struct Shared {
+  long diverged;
+  long at_level[128];
+};
+static Shared* g_shared = nullptr;
+static long g_limit = 300;
+static void shared_reset() {
+  if (!g_shared) g_shared = (Shared*)mmap(nullptr, sizeof(Shared), PROT_READ | PROT_WRITE, MAP_SHARED | MAP_ANONYMOUS, -1, 0);
+  if (g_shared == MAP_FAILED) { g_shared = nullptr; return; }
+  g_shared->diverged = 0;
+  for (long& v : g_shared->at_level) v = -1;
+}
+static bool too_many_disagreements(size_t depth) {
+  if (!g_shared || depth >= 128) return false;
+  long v = __atomic_load_n(&g_shared->at_level[depth], __ATOMIC_SEQ_CST);
+  if (v < 0) {
+    long cur = __atomic_load_n(&g_shared->diverged, __ATOMIC_SEQ_CST), expected = -1;
+    if (__atomic_compare_exchange_n(&g_shared->at_level[depth], &expected, cur, false, __ATOMIC_SEQ_CST, __ATOMIC_SEQ_CST)) v = cur;
+    else v = expected;
+  }
+  return v > g_limit;
+}
 
 template <class O>
 struct Driver {
@@ -368,6 +396,7 @@ struct Driver {
       if (abnormal && (pre.rowSwapped || post.rowSwapped) && (pre.reorderUnsafe || post.reorderUnsafe)) return "reorder_bounded_by_number_of_columns";
       if (range_op && pre.rowSwapped && !pre.mapsIdentity) return "entry_range_rows_not_translated_under_pending_row_swap";
       if (!post.rowSwapped && (!post.mapsIdentity || post.mapsBroken)) return "reorder_bounded_by_number_of_columns";
+      if (CT == Column_types::VECTOR && (pre.erasedAbsent || post.erasedAbsent)) return "vector_column_zeroed_absent_entry_recorded_as_erased";
       if (S.ra && (pre.staleColIndex || post.staleColIndex || o->k == SWAP_C))
         return S.intr ? "column_index_outdated_after_swap_columns" : "set_rows_after_swap_columns";
       if (!nopath.empty()) return nopath;
@@ -658,6 +687,7 @@ struct Driver {
       std::string sit = o ? crash_situation(before, *o, got_pre, pre) : "initial_state";
       deaths[sit]++;
       if (!quiet) {
+        if (g_shared) __atomic_add_fetch(&g_shared->diverged, 1, __ATOMIC_SEQ_CST);
         vf::stats().add("executor_died." + sit);
         vf::mismatch("C09:crash:" + sit, rules.S.name + " the process died (sanitizer report, signal or endless loop) executing " +
                                              (o ? rules.op_text(*o) : std::string("nothing")) + "; model before=" + before.key() +
@@ -667,6 +697,7 @@ struct Driver {
     }
     diverged = out.diverged;
     if (!quiet) {
+      if (diverged && g_shared) __atomic_add_fetch(&g_shared->diverged, 1, __ATOMIC_SEQ_CST);
       for (auto& f : out.findings) vf::mismatch(f.cls, f.detail);
       for (int i = 0; i < N_CMP; ++i) if (out.ncmp[i]) vf::stats().add(cmp_name[i], out.ncmp[i]);
       vf::stats().add("observations");
@@ -682,6 +713,10 @@ struct Driver {
   }
   std::vector<int> enabled(const std::vector<int>& hist) const {
     std::vector<int> r;
+    if (too_many_disagreements(hist.size())) {
+      vf::stats().add("stopped.states_not_expanded_after_" + std::to_string(g_limit) + "_disagreements");
+      return r;
+    }
     if (!hist.empty()) {
       // a state whose last transition disagreed with the model is not expanded (its successors would be compared with
       // a model the implementation has already left)
@@ -754,9 +789,15 @@ void run_variant(RunArgs& A) {
   cfg.deadline_s = A.deadline;
   cfg.validate_per_level = A.validate;
   cfg.scratch = "build/scratch";
+  shared_reset();
+  vf::Stats& st = vf::stats();
+  long long stopped_before = 0;
+  for (auto& kv : st.c) if (kv.first.rfind("stopped.", 0) == 0) stopped_before += kv.second;
   vf::ExploreResult r = vf::explore(d, cfg);
   d.stop_server();
-  vf::Stats& st = vf::stats();
+  long long stopped = -stopped_before;
+  for (auto& kv : st.c) if (kv.first.rfind("stopped.", 0) == 0) stopped += kv.second;
+  if (stopped > 0) { r.closed = false; r.deadline_hit = true; st.add("configs_stopped_after_many_disagreements"); }
   st.add("ev.states", r.states);
   st.add("ev.transitions", r.transitions);
   long long skipped = 0;  // transitions counted but not executed again after three deaths in the same situation
@@ -801,6 +842,7 @@ int main(int argc, char** argv) {
   A.only = split(a.get("only", ""), '+');
   A.deadline = t0 + (double)a.geti("budget", 120);
   g_keep_executor_stderr = a.geti("executor-stderr", 0) != 0;
+  g_limit = a.geti("stop-after", 300);
   if (!a.replay.empty()) {
     auto kv = vf::parse_kv(a.replay);
     A.replay_cfg = kv["cfg"];
